@@ -125,6 +125,12 @@ inline std::uint64_t ref_find_nonce(const PowFields& good, unsigned difficulty, 
     }
 }
 
+// a nonce that misses the target by exactly one bit (difficulty - 1 leading zero bits): the near miss a sloppy bit counter lets through
+inline std::uint64_t ref_find_near_miss(const PowFields& f, unsigned difficulty, std::uint64_t start) {
+    for (std::uint64_t n = start;; ++n)
+        if (ref_store_pow_zero_bits(f.id, f.size, f.name, n) + 1 == difficulty) return n;
+}
+
 // ---------------------------------------------------------------- node state snapshot (C27)
 struct Snapshot {
     std::map<std::string, std::pair<std::size_t, long long>> chunks;  // id -> (size, deadline ns)
